@@ -34,7 +34,7 @@ func init() {
 	})
 }
 
-var c04ViewLayouts = []string{gen.LT, gen.LS, gen.LSS, gen.LST, gen.LTS, gen.LC, gen.LF}
+var c04ViewLayouts = []string{gen.LT, gen.LS, gen.LSS, gen.LST, gen.LTS, gen.LC, gen.LF, gen.LSSS, gen.LSSR, gen.LTF}
 
 func c04Types(tier string) []reflect.Type {
 	if tier == "thorough" {
@@ -561,14 +561,32 @@ func c04Copies(c *core.Ctx, lay string, t reflect.Type, shape []int) {
 			return r, op.M, err
 		}})
 	}
-	for _, cp := range copies {
+	for ci, cp := range append(copies, copies...) {
 		op := c04Operand(c, lay, t, shape)
 		if op == nil {
 			return
 		}
+		masked := ci >= len(copies)
+		if masked {
+			// the same copies of a masked source (the copy routines have their own branch for carrying the mask over): the
+			// elements still have to arrive
+			mk := make([]bool, len(op.M.V))
+			for i := range mk {
+				mk[i] = c.Rng.Intn(3) == 0
+			}
+			if len(mk) == 0 || op.AttachMask(mk) != nil {
+				continue
+			}
+		}
 		key := core.Sig(cp.name, lay, tn, sc)
 		caseKey := fmt.Sprintf("%s/%s/%s/%s", cp.name, lay, tn, shapeStr(shape))
 		desc := map[string]interface{}{"copy": cp.name, "source": op.Recipe}
+		if masked {
+			key = core.Sig(cp.name, lay, tn, sc, "masked-source")
+			caseKey += "/masked-source"
+			desc["masked_source"] = true
+			cp.name += "(masked source)"
+		}
 		if c.WantSample("copy/" + cp.name) {
 			c.Sample("copy/"+cp.name, desc)
 		}
